@@ -75,7 +75,16 @@ impl<'a> PrettyPrinter<'a> {
         // A comment anywhere in the import (also before the items) pins the order of the items.
         let can_reorder = !contains_comment(import.to_untyped());
         let import_items_doc = self.convert_import_items(ctx, import_items_nodes, can_reorder);
-        prefix_doc + self.arena.space() + import_items_doc
+        // A line comment that ends the prefix must not swallow the items.
+        let sep = if prefix_part
+            .last()
+            .is_some_and(|node| node.kind() == SyntaxKind::LineComment)
+        {
+            self.arena.hardline()
+        } else {
+            self.arena.space()
+        };
+        prefix_doc + sep + import_items_doc
     }
 
     fn convert_import_items(
